@@ -30,11 +30,15 @@ EXPLANATION = (
 
 def _adaptive_nodes(model):
     fi, prologue, for_node, while_node, tail, epilogue = ik.loop_structure(model)
-    ad = [s for s in while_node.body if isinstance(s, ast.If) and ast.unparse(s.test) in ("self.adaptive",)]
+    ad = [s for s in while_node.body if isinstance(s, ast.If) and ast.unparse(s.test) in ("self.adaptive", "not self.adaptive")]
     if len(ad) != 1:
         raise AnalysisError("stepping loop no longer has exactly one `if self.adaptive:` statement",
                             where=astq.loc(fi, while_node))
-    return fi, while_node, ad[0]
+    node = ad[0]
+    if ast.unparse(node.test) == "not self.adaptive":
+        # same statement written the other way round: a view with the adaptive arm first (in memory only)
+        node = ast.copy_location(ast.If(test=node.test.operand, body=node.orelse, orelse=node.body), node)
+    return fi, while_node, node
 
 
 def _role_names(model):
@@ -339,9 +343,17 @@ def r14_4(ctx):
         else:
             rep.ok("R14.4", astq.loc(fi, ad), f"{fi.key}::R14.4::unclamped::{p.label()}", "proposal kept (>= dt_min)")
     # the clamp precedes the accept predicate
-    ifs = [s for s in ad.body if isinstance(s, ast.If)]
-    order_ok = len(ifs) >= 2 and f"{size} < self.dt_min" in ast.unparse(ifs[0].test) and \
-        any(isinstance(x, ast.Name) and x.id == "curr_t" for b in ifs[-1].body for x in ast.walk(b))
+    # in the order the tests are evaluated on every adaptive path (however they are written)
+    order_ok = True
+    seen_any = False
+    for p in _paths(ctx, True):
+        texts = [t for t, _ in p.decisions]
+        clamp_i = [i for i, t in enumerate(texts) if size in t and "dt_min" in t and err not in t]
+        accept_i = [i for i, t in enumerate(texts) if err in t]
+        if clamp_i and accept_i:
+            seen_any = True
+            order_ok = order_ok and min(clamp_i) < min(accept_i)
+    order_ok = order_ok and seen_any
     rep.check(order_ok, "R14.4", astq.loc(fi, ad), f"{fi.key}::R14.4::clamp-before-accept",
               "the dt_min clamp does not precede the accept test: a proposal below dt_min would be compared unclamped",
               "clamp precedes accept")
